@@ -71,6 +71,10 @@ def cases(tier, seed, shard, nshards):
                 if idx % nshards == shard:
                     yield {"maxsize": maxsize, "typed": False, "form": "paren", "kind": "function", "ops": list(hist),
                            "enumerated": True, "exc": PLANNED_NAMES[(idx // nshards) % len(PLANNED_NAMES)]}
+    for k, (arg, typed, positional) in enumerate(itertools.product(range(len(CONSTRUCT_MAXSIZE)), [False, True, 0, 1, None, "yes"],
+                                                                     [False, True])):
+        if k % nshards == shard:
+            yield {"kind": "construct", "arg": arg, "typed": typed, "positional": positional}
     for k, (maxsize, typed, form) in enumerate(itertools.product([None, 0, 1, 3], [False, True], ["paren", "bare"])):
         if k % nshards == shard:
             yield {"kind": "attrs", "maxsize": maxsize, "typed": typed, "form": form}
@@ -397,9 +401,52 @@ def run_attrs(case, stats):
     return {"violations": viols, "nontrivial": True, "sig": ("attrs", str(case))}
 
 
+CONSTRUCT_MAXSIZE = ["x", 1.5, b"", [], (), True, False, -5, -1, 0, 1, 2 ** 40, None, {}, 0.0]
+
+
+def run_construct(case, stats):
+    """Which first arguments lru_cache accepts, and what the resulting cache says about itself."""
+    CTX.reset()
+    viols = []
+    v, typed = CONSTRUCT_MAXSIZE[case["arg"]], case["typed"]
+    head = f"lru_cache(maxsize={v!r}, typed={typed!r})"
+
+    async def af(x):
+        return ("r", x)
+
+    def sf(x):
+        return ("r", x)
+
+    def build_a():
+        c = (A.lru_cache(v, typed) if case["positional"] else A.lru_cache(maxsize=v, typed=typed))(af)
+        out = [dict(c.cache_parameters()), tuple(c.cache_info())]
+        for x in (1, 2, 1, 3, 1):
+            out.append(run_sync(c(x)))
+        out.append(tuple(c.cache_info()))
+        return out
+
+    def build_s():
+        c = (functools.lru_cache(v, typed) if case["positional"] else functools.lru_cache(maxsize=v, typed=typed))(sf)
+        out = [dict(c.cache_parameters()), tuple(c.cache_info())]
+        for x in (1, 2, 1, 3, 1):
+            out.append(c(x))
+        out.append(tuple(c.cache_info()))
+        return out
+
+    ga, gs = _outcome(build_a), _outcome(build_s)
+    if ga[0] != gs[0] or (ga[0] == "ok" and ga[1] != gs[1]) or (ga[0] != "ok" and ga[1:2] != gs[1:2]):
+        viols.append({"key": "lru_cache/construction", "msg": f"{head}: {ga} vs functools {gs}"[:700]})
+    stats["construction_cases"] += 1
+    if gs[0] != "ok":
+        stats["construction_refused_by_functools"] += 1
+    return {"violations": viols, "nontrivial": True, "sig": ("construct", str(case))}
+
+
 def run_case(case, stats: Counter):
     if case.get("kind") == "reentrant":
         return run_reentrant(case, stats)
+    if case.get("kind") == "construct":
+        return run_construct(case, stats)
     if case.get("kind") == "attrs":
         return run_attrs(case, stats)
     CTX.reset()
